@@ -233,7 +233,8 @@ bool splinetable<Alloc>::read_fits_core(fitsfile* fits, const std::string& fileP
 				aux[i][0] = aux[i][1] = NULL;
 				aux[i][0] = allocate<char>(keylen);
 				std::copy(key,key+keylen,aux[i][0]);
-				//remove stupid quotes mandated by FITS, but not removed by cfitsio on reading
+				//cfitsio hands back string values as they stand in the header:
+				//enclosed in quotes and with every quote inside them doubled.
 				//Note that we do not attempt to remove whitespace, because we cannot 
 				//distinguish whitespace included by the user and whitespace pointlessly
 				//added by FITS.
@@ -241,11 +242,19 @@ bool splinetable<Alloc>::read_fits_core(fitsfile* fits, const std::string& fileP
 				//allocated (the size is needed again to release the storage).
 				const char* vbegin = value;
 				size_t vlen = valuelen-1;
-				if(vlen>0 && vbegin[0]=='\''){ //remove an opening quote
-					vbegin++;
-					vlen--;
-					if(vlen>0 && vbegin[vlen-1]=='\'') //remove a trailing quote also
-						vlen--;
+				char unquoted[FLEN_VALUE];
+				if(vlen>0 && value[0]=='\''){
+					size_t end = vlen;
+					if(end>1 && value[end-1]=='\'') //leave out the closing quote
+						end--;
+					size_t n = 0;
+					for(size_t k=1; k<end; k++){ //and the opening one
+						unquoted[n++] = value[k];
+						if(value[k]=='\'' && k+1<end && value[k+1]=='\'')
+							k++; //a doubled quote stands for one
+					}
+					vbegin = unquoted;
+					vlen = n;
 				}
 				aux[i][1] = allocate<char>(vlen+1);
 				std::copy(vbegin,vbegin+vlen,aux[i][1]);
